@@ -81,8 +81,11 @@ def corrE (W : Sample) {m : ℕ} (e : Fin m → ℕ) : ℚ :=
 theorem corrDet_eq (W : Sample) (cols : List ℕ) :
     corrDet W cols = (covM W cols).det / (cols.map (fun c => cov W c c)).prod := by
   unfold corrDet
+  simp only []
   rw [detF_eq_det]
-  rfl
+  congr 2
+  funext a b
+  simp [covTable, covM, covE, colAt, Matrix.of_apply, Array.getD_eq_getD_getElem?]
 
 theorem corrDet_eq_corrE_colAt (W : Sample) (cols : List ℕ) :
     corrDet W cols = corrE W (colAt cols) := by
@@ -153,7 +156,7 @@ theorem corrDet_perm (W : Sample) {cols cols' : List ℕ} (h : cols.Perm cols') 
   simp [colAt, this]
 
 theorem corrDet_nil (W : Sample) : corrDet W [] = 1 := by
-  simp [corrDet, detF]
+  simp [corrDet, detF, covTable]
 
 /-! ## `cov` as a `Finset` sum; dependence on the listed columns only -/
 
@@ -164,7 +167,7 @@ theorem colMean_eq (W : Sample) (c : ℕ) :
 theorem cov_eq (W : Sample) (a b : ℕ) :
     cov W a b = (∑ r ∈ Finset.range W.length,
       (entry W r a - colMean W a) * (entry W r b - colMean W b)) / ((W.length : ℚ) - 1) := by
-  unfold cov; rw [sum_range_map]
+  unfold cov; simp only []; rw [sum_range_map]
 
 theorem cov_comm (W : Sample) (a b : ℕ) : cov W a b = cov W b a := by
   rw [cov_eq, cov_eq]
